@@ -3,7 +3,13 @@
 
   * rearrange clauses (branch sets, concept first, sortedness, stability, key
     meaning, graph content, idempotence): `Penman.Props.C05a`.
-  * reconfigure / new-top clauses: corollaries of the configure development
-    (`Penman.Props.C06`), stated here.
+  * reconfigure / new-top clauses: `Penman.Props.C05b` (namespace `Penman.C05b`) —
+    corollaries of the configure development (`Penman.Props.C03`, `Penman.Props.C06`):
+    `reconfigure_prep`, `reconfigure_graph`, `reconfigure_tree`, `new_top_graph`,
+    `new_top_tree`, `reconfigure_new_top`, `reconfigure_sorted`, `decoded_top_explicit`;
+    "same top for reconfigure" holds for every key and every graph, an implicit top
+    included (fix F21: the top is resolved before sorting; the graph that exposed the
+    defect is `C05b.Examples.reconfigure_implicit_top_kept`).
 -/
 import Penman.Props.C05a
+import Penman.Props.C05b
